@@ -355,6 +355,33 @@ func runTimerController(t *testing.T, d *sim.D) {
 		w.collect(nd)
 		w.d.State(fmt.Sprint(nd.id), "tev-"+kind, w.absState())
 	}
+	// last act: every correct operator whose instance is still undecided starts the next height (the
+	// controller force-stops the old instance, which stays stored) and then receives the timeout event
+	// that was already queued for the old instance: nothing may change, nothing may be sent or re-armed
+	for _, i := range w.honestIdx {
+		nd := w.nodes[i]
+		old := w.instOf(nd)
+		if d.V != nil || old == nil || old.State.Decided {
+			continue
+		}
+		w.collect(nd)
+		var serr error
+		w.safely("StartNewInstance", func() { serr = nd.ctrl.StartNewInstance(logger, w.height+1, w.values[nd.startVal]) })
+		if serr != nil {
+			continue
+		}
+		nd.net.out = nil
+		armedBefore := len(nd.timer.armed)
+		r0, _ := old.State.GetRoot()
+		data, _ := json.Marshal(ssvtypes.TimeoutData{Height: w.height, Round: old.State.Round})
+		w.safely("OnTimeout", func() { _ = nd.ctrl.OnTimeout(logger, ssvtypes.EventMsg{Type: ssvtypes.Timeout, Data: data}) })
+		r1, _ := old.State.GetRoot()
+		w.d.Fault("timeout-event-superseded-height")
+		if r0 != r1 || len(nd.net.out) != 0 || len(nd.timer.armed) != armedBefore {
+			w.d.Violate("stale-timeout-event-had-effect", "superseded-height", "op%d: timeout event for the force-stopped instance of height %d (round %d) after height %d was started changed its state=%v, broadcast %d message(s), timer re-armed=%v", nd.id, w.height, old.State.Round, w.height+1, r0 != r1, len(nd.net.out), len(nd.timer.armed) != armedBefore)
+		}
+		nd.net.out = nil
+	}
 	w.finishProbes()
 	d.Nontriv = d.Nontriv || len(d.Steps) > 15
 }
